@@ -29,6 +29,11 @@ def make_index(origin, n, kind):
         return pd.RangeIndex(origin, origin + n)
     if kind == "int":
         return pd.Index(np.arange(origin, origin + n, dtype=np.int64))
+    if kind == "step2":      # integer time stamps that do not advance by one per observation
+        return pd.RangeIndex(origin, origin + 2 * n, 2)
+    if kind == "irregular":
+        gaps = np.random.RandomState(abs(origin) + n).choice([1, 2, 3], size=n)
+        return pd.Index(origin + np.cumsum(gaps), dtype=np.int64)
     if kind == "period":
         return pd.period_range(pd.Period("2000-01", freq="M") + origin, periods=n, freq="M")
     raise ValueError(kind)
@@ -233,6 +238,12 @@ def build_cv(spec):
         ExpandingWindowSplitter, SingleWindowSplitter, SlidingWindowSplitter)
     t = spec["type"]
     fh = spec.get("fh", [1])
+    # the same steps ahead, handed over as another of the accepted containers
+    if spec.get("fh_as") == "array":
+        fh = np.array(fh)
+    elif spec.get("fh_as") == "object":
+        from sktime.forecasting.base import ForecastingHorizon
+        fh = ForecastingHorizon(fh, is_relative=True)
     if t == "sliding":
         return SlidingWindowSplitter(fh=fh, window_length=spec["window"],
                                      step_length=spec.get("step", 1),
